@@ -850,7 +850,7 @@ class Emitter:
         for t, fn in getattr(self, 'newfns', {}).items():
             ct = self.cty(t)
             cap = 'IR2C_MAXBYTES' if t == ('int', 8) else 'IR2C_MAXELEMS'
-            o.append('static uint8_t *%s(uint64_t nb) { uint64_t c = nb / sizeof(%s); IR2C_NEW_CASES(%s, c, %s) __CPROVER_assert(0, "allocation larger than the modelled bound"); __CPROVER_assume(0); return 0; }' % (fn, ct, ct, cap))
+            o.append('static uint8_t *%s(uint64_t nb) { uint64_t c = (nb + sizeof(%s) - 1) / sizeof(%s); IR2C_NEW_CASES(%s, c, %s) __CPROVER_assert(0, "allocation larger than the modelled bound"); __CPROVER_assume(0); return 0; }' % (fn, ct, ct, ct, cap))
         for g in self.seen_globals:
             o.append(gdefs[g])
         o += disp_bodies
@@ -978,7 +978,9 @@ class FuncEmitter:
             elif t[0] == 'cbr': ss = [t[2], t[3]]
             elif t[0] == 'switch': ss = [t[3]] + [cl for cv, cl in t[4]]
             elif t[0] == 'call' and t[6]: ss = [t[6]]
-            succ[b] = [x_ for x_ in ss if x_ in parsed]
+            # visited in reverse so that the FIRST successor (clang: the loop body / then-branch) is laid out right
+            # after its predecessor and loop bodies stay contiguous
+            succ[b] = [x_ for x_ in reversed(ss) if x_ in parsed]
         order = []; seen = set()
         stack = [(f.entry, iter(succ.get(f.entry, [])))]; seen.add(f.entry)
         while stack:
@@ -991,6 +993,9 @@ class FuncEmitter:
                 order.append(node); stack.pop()
         order.reverse()
         order += [b for b in parsed if b not in seen]       # unreachable blocks (landing pads) last
+        if not os.environ.get('IR2C_RPO'):
+            order = list(parsed)                            # default: clang's own block layout (measured: RPO layouts made
+                                                            # several obligations much slower in cbmc); RPO kept for experiments
         for b in order:
             pl = parsed[b]
             out.append('%s: ;' % self.lab(b))
